@@ -128,6 +128,59 @@ func waitingEmptyPullRestartsExpiry(t *testing.T, st *Stats) {
 			return
 		}
 	}
+	cancelledFetchRestartsExpiry(t, st)
+}
+
+// cancelledFetchRestartsExpiry: the fetch of a stream (or of the push path) names its subscription by id and
+// usually ends because the client goes away; it has restarted the expiry clock when it began. Subscription
+// with a TTL of 60 s, idle for 30 s; a fetch begins, is cancelled 10 s later; 30 s after that (70 s after
+// the subscription's creation, 40 s after the fetch began) the expiry job leaves the subscription alone.
+func cancelledFetchRestartsExpiry(t *testing.T, st *Stats) {
+	what := ""
+	synctest.Test(t, func(t *testing.T) {
+		w := NewWorld(t, Seed())
+		defer w.Close()
+		w.Exec(Op{K: "create_topic", Topic: "t"})
+		w.Exec(Op{K: "create_sub", Sub: "s", Cfg: &SubCfg{Topic: "t", TTL: 60 * Sec, MTTL: 3600 * Sec}})
+		w.Dump()
+		var subID uuid.UUID
+		for _, row := range w.lastSubs {
+			subID = row.ID
+		}
+		time.Sleep(30 * time.Second)
+		ctx, cancel := context.WithCancel(context.Background())
+		a := actions.NewGetSubscriptionMessages(actions.GetSubscriptionMessagesParams{ID: &subID, Name: SubName("s"), MaxMessages: 5, MaxBytes: 1 << 30, MaxWait: 50 * time.Second})
+		fin := make(chan error, 1)
+		go func() { fin <- a.ExecuteClient(ctx, w.Client) }()
+		time.Sleep(10 * time.Second)
+		synctest.Wait()
+		cancel()
+		synctest.Wait()
+		select {
+		case <-fin:
+		default:
+			what = "setup: the cancelled fetch did not return"
+			time.Sleep(60 * time.Second)
+			synctest.Wait()
+			return
+		}
+		time.Sleep(30 * time.Second)
+		r := w.Exec(Op{K: "expire_subs", Max: 5})
+		g := w.Exec(Op{K: "pull", Sub: "s", Max: 1})
+		if r.Resp != "ok:0" || (len(g.Resp) > 0 && g.Resp[0] == 'E') {
+			what = fmt.Sprintf("subscription with an expiration TTL of 60 s, idle for 30 s; a fetch by subscription id (as a stream or the push path makes it) began then and was cancelled 10 s later; 30 s after that — 40 s after the fetch began — the expiry job answered %s and a Pull is answered %s: the fetch did not restart the expiry clock", r.Resp, g.Resp)
+		}
+	})
+	st.Count("cancelled_fetch_cases", 1)
+	if what != "" && (len(what) < 6 || what[:6] != "setup:") {
+		p := ReplayPath(fmt.Sprintf("C14-cancelled-fetch-%d.json", Seed()))
+		b, _ := json.MarshalIndent(map[string]interface{}{"property": "C14", "sig": "fetch-did-not-restart-expiry", "seed": Seed(), "what": what,
+			"history": []string{"subscription s, expiration TTL 60 s, nothing published", "30 s pass", "fetch by subscription id with a 50 s wait begins", "10 s later its context is cancelled", "30 s later: expiry job, then Pull(s)"}}, "", " ")
+		os.WriteFile(p, b, 0o644)
+		st.Violate(Violation{What: "[fetch-did-not-restart-expiry] " + what, Replay: p, FoundInput: true, Sig: "fetch-did-not-restart-expiry"})
+	} else if what != "" {
+		st.Count("cancelled_fetch_setup_failed", 1)
+	}
 }
 
 // updated: while the pull waits, UpdateSubscription raises the expiration TTL to 300 s; the clock the pull
